@@ -15,6 +15,7 @@ import (
 	"sync"
 
 	"github.com/aws/aws-sdk-go/aws"
+	"github.com/aws/aws-sdk-go/aws/awserr"
 	"github.com/aws/aws-sdk-go/aws/request"
 	"github.com/aws/aws-sdk-go/service/s3"
 	"github.com/jrhy/mast"
@@ -28,6 +29,9 @@ type fakeS3 struct {
 	objects  map[string][]byte // "bucket\x00key"
 	calls    []string          // "PUT bucket key" / "GET bucket key"
 	failNext error
+	// failN: the next failN calls fail with failErr (a service that answers 503 a few times)
+	failN   int
+	failErr error
 	// failBody: the next GET succeeds but its body fails after that many bytes
 	failBody int // -1 = off
 	gets     int
@@ -70,6 +74,10 @@ func (c *chunkReader) Read(p []byte) (int, error) {
 func (c *chunkReader) Close() error { return nil }
 
 func (f *fakeS3) take() error {
+	if f.failN > 0 {
+		f.failN--
+		return f.failErr
+	}
 	e := f.failNext
 	f.failNext = nil
 	return e
@@ -123,6 +131,7 @@ type backendExec struct {
 	written   map[string]map[string][]byte // per backend: what a successful Store wrote
 	failed    bool                         // the last op had an injected backend error
 	plainBody bool                         // the last bloadbody met an empty object and was an ordinary load
+	flakyOK   bool                         // the last bstoreflaky / bloadflaky reported success
 	held      []heldBytes                  // what earlier Loads returned (the caller still holds it)
 }
 
@@ -239,6 +248,55 @@ func (e *backendExec) Exec(line string) (obs, viol string) {
 		}
 		e.written[t[1]][t[2]] = b
 		return "ok", viol
+	case "bstoreflaky", "bloadflaky":
+		// the service fails the next k requests with an error of the given kind — each failing PUT
+		// after the request body has been consumed, as over HTTP — and is healthy again afterwards.
+		// The call may report the error (the unchanged code does) or, if it tries again, succeed:
+		// a reported success must be a complete write / the exact bytes.
+		be := e.backends["s3"]
+		k, _ := strconv.Atoi(t[3])
+		if t[2] == "plain" {
+			e.s3f.failErr = errors.New("injected S3 failure")
+		} else {
+			e.s3f.failErr = awserr.New(t[2], "injected S3 failure", nil)
+		}
+		e.s3f.failN = k
+		e.failed = true
+		key := s3Bucket + "\x00" + s3Prefix + t[4]
+		if t[0] == "bstoreflaky" {
+			var b []byte
+			if t[5] != "-" {
+				b, _ = hex.DecodeString(t[5])
+			}
+			err := be.Store(ctx, t[4], b)
+			e.s3f.failN = 0
+			e.flakyOK = err == nil
+			if err != nil {
+				return "err", ""
+			}
+			e.s3f.mu.Lock()
+			got, ok := e.s3f.objects[key]
+			e.s3f.mu.Unlock()
+			if !ok || !bytes.Equal(got, b) {
+				return "ok", fmt.Sprintf("Store reported success after %d transient S3 failure(s) (%s), but the object holds %d of the %d bytes", k, t[2], len(got), len(b))
+			}
+			e.written["s3"][t[4]] = b
+			return "ok", ""
+		}
+		b, err := be.Load(ctx, t[4])
+		e.s3f.failN = 0
+		e.flakyOK = err == nil
+		if err != nil {
+			return "err", ""
+		}
+		want, ok := e.written["s3"][t[4]]
+		if !ok {
+			return "ok " + hexOrDash(b), "load of a name never written returned data instead of an error"
+		}
+		if !bytes.Equal(b, want) {
+			return "ok " + hexOrDash(b), fmt.Sprintf("after %d transient S3 failure(s) (%s) Load returned %d bytes that differ from the %d bytes written", k, t[2], len(b), len(want))
+		}
+		return "ok " + hexOrDash(b), ""
 	case "bload", "bloadfail", "bloadbody":
 		be := e.backends[t[1]]
 		if t[0] == "bloadfail" {
@@ -327,6 +385,16 @@ func (e *backendExec) ModelLine(line string) string {
 		return "kverr"
 	case "bstorefail", "bloadfail":
 		return "kverr"
+	case "bstoreflaky":
+		if e.flakyOK {
+			return "kvstore s3 " + t[4] + " " + t[5]
+		}
+		return "kverr"
+	case "bloadflaky":
+		if e.flakyOK {
+			return "kvload s3 " + t[4]
+		}
+		return "kverr"
 	case "bload":
 		return "kvload " + t[1] + " " + t[2]
 	}
@@ -384,7 +452,16 @@ func genBackendCase(r *rand.Rand) Case {
 				ops = append(ops, fmt.Sprintf("bloadfail s3 %s", n))
 			}
 		case 7:
-			ops = append(ops, fmt.Sprintf("bstore filebad %s %s", n, content[n]))
+			if r.Intn(2) == 0 {
+				ops = append(ops, fmt.Sprintf("bstore filebad %s %s", n, content[n]))
+			} else {
+				kind := pick(r, []string{"SlowDown", "ServiceUnavailable", "InternalError", "RequestTimeout", "RequestError", "Throttling", "plain"})
+				if r.Intn(3) == 0 {
+					ops = append(ops, fmt.Sprintf("bloadflaky s3 %s %d %s", kind, 1+r.Intn(3), n))
+				} else {
+					ops = append(ops, fmt.Sprintf("bstoreflaky s3 %s %d %s %s", kind, 1+r.Intn(3), n, content[n]))
+				}
+			}
 		default:
 			ops = append(ops, fmt.Sprintf("bload %s %s", be, n))
 		}
